@@ -278,6 +278,11 @@ def step (st : St) (line : String) : St × String :=
     match fab.toNat? with
     | some fab => if fabOk fab then runOp st (.persistRemove fab) out (renderStd "yes" "no") else (st, "BAD fab")
     | none => (st, "BAD strm")
+  | ["faba", subject] =>
+    match subject.toNat? with
+    | some subject => runOp st (.fabAdd (some subject)) out (renderStd "yes" "no")
+    | none => (st, "BAD faba")
+  | ["wipe"] => runOp st .resetPersist out (renderStd "yes" "no")
   | ["load"] => runOp st .loadPersist out (renderStd "yes" "no")
   | ["reload", fab] =>
     match fab.toNat? with
